@@ -136,7 +136,7 @@ SkipStep == ~Strict /\ IsA("factory.step") /\ Adv /\ KeepPre /\ E0 /\ UNCHANGED 
 Sent == Ev.d = 1
 TSubmit == /\ IsA("obs.submit") /\ Adv /\ KeepPre /\ E0
            /\ Ev.id \in JobIds /\ ~jb[Ev.id].sub /\ (~Sent => (f.stopreq \/ f.up # "run"))
-           /\ jb' = [jb EXCEPT ![Ev.id] = [NoJob EXCEPT !.sub = TRUE, !.key = Ev.key, !.ttl = Ev.ttl, !.port = Ev.port = 1, !.prio = Ev.prio, !.rleft = Ev.retries,
+           /\ jb' = [jb EXCEPT ![Ev.id] = [NoJob EXCEPT !.sub = TRUE, !.key = Ev.key, !.ttl = Ev.ttl, !.port = Ev.port = 1, !.prio = Ev.prio, !.rleft = Ev.retries, !.r0 = Ev.retries,
                                                         !.nd = Ev.nd = 1, !.born = now, !.undeliv = ~Sent, !.seq = mon.nseq + 1]]
            /\ mon' = [mon EXCEPT !.nseq = @ + 1]
            /\ fmq' = IF Sent THEN Append(fmq, Msg("dispatch", Ev.id, Ev.key, "", 0)) ELSE fmq
@@ -183,12 +183,12 @@ TStep == Reset \/ Cfg \/ Time \/ WNew \/ Discard \/ Retry \/ Cast \/ Hook \/ Ste
 \* ... and which invariants of Factory (read with the recorded deviations) failed at some state: such a run
 \* cannot pass its obs.end line, so it is rejected like any other unexplained run
 Violated == {n \in {"OneFate", "PortOk", "LostOnePerDeath", "NoFactoryPanic", "KeyExclusive", "KeyFifo", "OneAtATime", "RoundRobinCovers",
-                    "QueuerNoIdle", "ViewExact", "QueueBound", "HookOrder", "PoolConverges", "DrainComplete", "DrainRefuses"} :
+                    "QueuerNoIdle", "ViewExact", "QueueBound", "HookOrder", "PoolConverges", "DrainComplete", "DrainRefuses", "RetryBudget"} :
                ~(CASE n = "OneFate" -> OneFate [] n = "PortOk" -> PortOk [] n = "LostOnePerDeath" -> LostOnePerDeath
                    [] n = "NoFactoryPanic" -> NoFactoryPanic [] n = "KeyExclusive" -> KeyExclusive [] n = "KeyFifo" -> KeyFifo
                    [] n = "OneAtATime" -> OneAtATime [] n = "RoundRobinCovers" -> RoundRobinCovers [] n = "QueuerNoIdle" -> QueuerNoIdle
                    [] n = "ViewExact" -> ViewExact [] n = "QueueBound" -> QueueBound [] n = "HookOrder" -> HookOrder
-                   [] n = "PoolConverges" -> PoolConverges [] n = "DrainComplete" -> DrainComplete [] OTHER -> DrainRefuses)}
+                   [] n = "RetryBudget" -> RetryBudget [] n = "PoolConverges" -> PoolConverges [] n = "DrainComplete" -> DrainComplete [] OTHER -> DrainRefuses)}
 TNext == /\ TStep
          /\ wit' = (IF IsA("reset") THEN {} ELSE wit \cup Broken')
          /\ bad' = (IF IsA("reset") THEN {} ELSE bad \cup Violated')
